@@ -232,10 +232,11 @@ let parse_prog (line : string) : string * prog =
 
 (* ---------- run mode ---------- *)
 let big_fuel = nat_of_int 2_000_000
+let iter_cap = ref 3001
 
 let print_run (n : int) (id : string) (p : prog) =
   Printf.printf "PROG %d %s\n" n id;
-  let (recs, fin), _ck = check big_fuel big_fuel p in
+  let (recs, fin), _ck = check (nat_of_int !iter_cap) big_fuel p in
   List.iter
     (fun r ->
       Printf.printf "BEGIN %s\n" (dump_path r.ir_begin);
@@ -261,6 +262,93 @@ let run_file file =
        if line <> "" && line.[0] <> '#' then begin
          let id, p = parse_prog line in
          print_run !n id p
+       end;
+       incr n
+     done
+   with End_of_file -> ());
+  close_in ic
+
+
+(* ---------- outcome keys (shared with tools/props.py) ---------- *)
+let key_of_logs (logs : (int * int * string) list) : string =
+  (* per body: the last result recorded for every pc (await polls collapse) *)
+  let tbl = Hashtbl.create 16 in
+  List.iter (fun (b, pc, r) -> Hashtbl.replace tbl (b, pc) r) logs;
+  let items = Hashtbl.fold (fun (b, pc) r acc -> (b, pc, r) :: acc) tbl [] in
+  let items = List.sort compare items in
+  let bodies = List.sort_uniq compare (List.map (fun (b, _, _) -> b) items) in
+  String.concat ";"
+    (List.map
+       (fun b ->
+         Printf.sprintf "%d:%s" b
+           (String.concat ","
+              (List.filter_map (fun (b', pc, r) -> if b' = b then Some (Printf.sprintf "%d=%s" pc r) else None) items)))
+       bodies)
+
+let rleak_str = function RLArc -> "arc" | RLAlloc -> "alloc" | RLMsgs -> "msgs"
+
+let ref_keys (p : prog) : string list =
+  let outs = ref_outcomes big_fuel p in
+  let tbl = Hashtbl.create 64 in
+  List.iter
+    (fun o ->
+      let k =
+        match o with
+        | OFinished (logs, leak) ->
+            let flat =
+              List.concat
+                (List.mapi (fun b l -> List.map (fun (pc, r) -> (b, int_of_nat pc, result_str r)) l) logs) in
+            (match leak with
+            | None -> "ok|" ^ key_of_logs flat
+            | Some (k, i) -> Printf.sprintf "leak %s %s|%s" (rleak_str k) (nat_str i) (key_of_logs flat))
+        | ODeadlock -> "deadlock"
+        | OPanic -> "panic"
+        | OFuel -> "ref-out-of-fuel" in
+      Hashtbl.replace tbl k ())
+    outs;
+  List.sort compare (Hashtbl.fold (fun k () acc -> k :: acc) tbl [])
+
+let model_keys (p : prog) : string list * string =
+  let (recs, fin), _ = check (nat_of_int !iter_cap) big_fuel p in
+  let tbl = Hashtbl.create 64 in
+  List.iter
+    (fun r ->
+      let flat =
+        List.filter_map
+          (function LOp (b, pc, x) -> Some (int_of_nat b, int_of_nat pc, result_str x) | LDrop _ -> None)
+          r.ir_log in
+      let k =
+        match r.ir_result with
+        | IterDone -> "ok|" ^ key_of_logs flat
+        | IterPanic (PanicLeak (LArc, i)) -> Printf.sprintf "leak arc %s|%s" (nat_str i) (key_of_logs flat)
+        | IterPanic (PanicLeak (LAlloc, i)) -> Printf.sprintf "leak alloc %s|%s" (nat_str i) (key_of_logs flat)
+        | IterPanic (PanicLeak (LMsgs, i)) -> Printf.sprintf "leak msgs %s|%s" (nat_str i) (key_of_logs flat)
+        | IterPanic (PanicDeadlock _) -> "deadlock"
+        | IterPanic PanicUser -> "panic"
+        | IterPanic (PanicCausality _) -> "causality"
+        | IterPanic pn -> "internal:" ^ panic_str pn
+        | IterFuel -> "model-out-of-fuel" in
+      Hashtbl.replace tbl k ())
+    recs;
+  let fin_s = match fin with RunOk -> "ok" | RunPanic pn -> "panic " ^ panic_str pn | RunFuel -> "fuel" in
+  (List.sort compare (Hashtbl.fold (fun k () acc -> k :: acc) tbl []), fin_s)
+
+let keys_file which file =
+  let ic = open_in file in
+  let n = ref 0 in
+  (try
+     while true do
+       let line = String.trim (input_line ic) in
+       if line <> "" && line.[0] <> '#' then begin
+         let id, p = parse_prog line in
+         Printf.printf "PROG %d %s\n" !n id;
+         (match which with
+         | `Ref -> List.iter (fun k -> Printf.printf "K %s\n" k) (ref_keys p)
+         | `Model ->
+             let ks, fin = model_keys p in
+             List.iter (fun k -> Printf.printf "K %s\n" k) ks;
+             Printf.printf "RUN %s\n" fin);
+         Printf.printf "DONE %d\n%!" !n
        end;
        incr n
      done
@@ -421,9 +509,16 @@ let replay_file file =
   if !mism > 0 then exit 1
 
 let () =
-  match Array.to_list Sys.argv with
+  let args = Array.to_list Sys.argv in
+  let rec strip = function
+    | "--cap" :: n :: rest -> iter_cap := int_of_string n + 1; strip rest
+    | x :: rest -> x :: strip rest
+    | [] -> [] in
+  match strip args with
   | [ _; "run"; f ] -> run_file f
   | [ _; "replay"; f ] -> replay_file f
+  | [ _; "ref"; f ] -> keys_file `Ref f
+  | [ _; "keys"; f ] -> keys_file `Model f
   | _ ->
-      prerr_endline "usage: driver run <programs> | replay <harness-output>";
+      prerr_endline "usage: driver run|ref|keys <programs> | replay <harness-output>";
       exit 2
